@@ -135,7 +135,9 @@ def build(job):
     except MemoryError:
         return 'RAISED MemoryError'
     except Exception as e:
-        return 'RAISED %s: %s' % (type(e).__name__, str(e).split('\n')[0][:100])
+        import re as _re
+        return 'RAISED %s: %s | files=%s' % (type(e).__name__, str(e).split('\n')[0][:100],
+                                            ','.join(_re.findall(r'Filename:\s+(\S+)', str(e))))
 
 
 jobs = json.loads(sys.argv[1])
